@@ -165,3 +165,29 @@ func lemmaRoundTripVersion(v Version) (Version, bool) {
 
 	return 0, false
 }
+
+// ---- text round trips of the address types (C15): Parse(String(a)) ---------------------------
+
+func lemmaBindAddrText(a BindAddr) (BindAddr, bool) {
+	b, err := ParseBindAddr(a.String())
+
+	return b, err == nil
+}
+
+func lemmaBroadcastAddrText(a BroadcastAddr) (BroadcastAddr, bool) {
+	b, err := ParseBroadcastAddr(a.String())
+
+	return b, err == nil
+}
+
+func lemmaListenAddrText(a ListenAddr) (ListenAddr, bool) {
+	b, err := ParseListenAddr(a.String())
+
+	return b, err == nil
+}
+
+func lemmaControllerAddrText(a ControllerAddr) (ControllerAddr, bool) {
+	b, err := ParseControllerAddr(a.String())
+
+	return b, err == nil
+}
